@@ -14,6 +14,19 @@ def u_exc(t, k): return t_unit('t_exc_ctl%d' % k, 'EXC', ['-DEXC_CTL=%d' % k], t
 def u_act(t, k=0): return t_unit('t_act_ctl%d' % k, 'ACT', ['-DACT_CTL=%d' % k], tier=t)
 
 
+EOLS = [('lf_crlf', 0), ('lf', 1), ('cr', 2), ('crlf', 3), ('cr_crlf', 4)]
+
+
+def u_pos(t, eol, kind, lazy):
+    return t_unit('t_pos_%s_%s' % (eol, 'lazy' if lazy else 'eager'), 'POS',
+                  ['-DVERIF_TRACK=p::tracking_mode::%s' % ('lazy' if lazy else 'eager'), '-DVERIF_EOL=p::eol::%s' % eol,
+                   '-DVERIF_EOL_KIND=%d' % kind, '-DPOS_LAZY=%d' % int(lazy)], tier=t)
+
+
+def pos_units(t):
+    return [u_pos(t, e, k, lz) for (e, k) in EOLS for lz in (0, 1)]
+
+
 T_ASSUME = [
     'the reference interpreter (engine/ref.hpp) is the PEG formalism / the documented expansions',
     'table-dispatched grammars behave like static grammars of named rules (T<->static conformance is checked under C01)',
@@ -57,6 +70,15 @@ CHECKS = {
         'rule': 'hook log of every execution of the exception and action spaces under three control families (with unwind, without unwind, all rules '
                 'visible) is run through the protocol automaton start;(apply|apply0)?;(success|failure|unwind) with proper nesting',
         'assumptions': T_ASSUME,
+    },
+    'C06': {
+        'units': lambda t: [dict(u, shards=8) for u in pos_units(t)],
+        'rule': 'tables (<=3 rules) over seq sor star plus opt at not_at until(1,2) and the newline-capable atoms any one<LF> one<CR> not_one range<0,127> '
+                'string<CR,LF> eol eolf bytes<2> everything utf8::any bof bol eof; all inputs over {a, LF, CR, 0xC3, 0xA9} of length <=4 (thorough 5); '
+                '10 input types {lf,cr,crlf,lf_crlf,cr_crlf} x {eager,lazy}; initial counters (0,1,1) and (7,3,5); both rewind modes; oracle: in.position() '
+                'at every Control<Rule>::match entry/exit, every action input and every parse_error equals the prefix formula; eager and lazy are compared '
+                'through the common formula',
+        'assumptions': T_ASSUME + ['UTF-16/32 and multi-byte binary rules excluded as documented by the library'],
     },
     'C02': {
         'units': lambda t: [u_core(t), u_conv(t), u_exc(t, 0), u_act(t, 0)],
